@@ -1,4 +1,6 @@
 import Deltio.Proto.Deadlock
+import Deltio.Lemmas.SysClock
+import Deltio.Lemmas.SysSub
 /-
   C07 — Every request terminates: no deadlock between topic and subscription actors.
   Slice P3 (Deltio/Proto/Deadlock.lean): all interleavings, any number of client requests, any
@@ -269,5 +271,60 @@ example :
   refine ⟨by decide, ?_⟩
   unfold Pending
   decide
+
+/-! ### C07 at system level: which requests may take virtual time, and how much -/
+
+/-- Every request other than Pull is answered at the virtual instant it was issued: none of the
+    handlers waits for a timer (in the sequential model every step of a handler is enabled at once). -/
+theorem C07_zero_time (sys : Sys) (r : Req) (hr : ∀ raw mx ri, r ≠ .pull raw mx ri) : (sys.rpc r).1.clock = sys.clock := by
+  cases r with
+  | pull raw mx ri => exact absurd rfl (hr raw mx ri)
+  | createTopic raw => simp only [Sys.rpc]; (repeat' split) <;> rfl
+  | getTopic raw => simp only [Sys.rpc]; (repeat' split) <;> rfl
+  | deleteTopic raw => simp only [Sys.rpc]; (repeat' split) <;> rfl
+  | listTopics p sz t => simp only [Sys.rpc]; (repeat' split) <;> rfl
+  | listTopicSubs raw sz t => simp only [Sys.rpc]; (repeat' split) <;> rfl
+  | createSub n t a p => simp only [Sys.rpc]; (repeat' split) <;> rfl
+  | getSub raw => simp only [Sys.rpc]; (repeat' split) <;> simp
+  | listSubs p sz t => simp only [Sys.rpc]; (repeat' split) <;> simp
+  | deleteSub raw => simp only [Sys.rpc]; (repeat' split) <;> rfl
+  | publish raw m => simp only [Sys.rpc]; (repeat' split) <;> simp
+  | ack raw ids => simp only [Sys.rpc]; (repeat' split) <;> simp
+  | modAck raw secs ids => simp only [Sys.rpc]; (repeat' split) <;> simp
+  | unimplemented => rfl
+
+/-- A Pull — blocking or not, whatever else is leased, expires or is queued meanwhile — is answered
+    no later than its server-side wait limit: 300 s after it was issued, on the timer's millisecond
+    grid (`ceilMs`, plus the sub-millisecond phase the paused clock keeps). -/
+theorem C07_pull_limit (sys : Sys) (raw : Bytes) (mx : Int) (ri : Bool) :
+    (sys.rpc (.pull raw mx ri)).1.clock ≤ ceilMs (sys.clock + pullLimitUs) + sys.clock % 1000 := by
+  have hc : sys.clock ≤ ceilMs (sys.clock + pullLimitUs) + sys.clock % 1000 := by
+    have : sys.clock + pullLimitUs ≤ ceilMs (sys.clock + pullLimitUs) := by unfold ceilMs; omega
+    omega
+  simp only [Sys.rpc]
+  split
+  · exact hc
+  · split
+    · exact hc
+    · split
+      · simp only [clock_drainSub, clock_subTurn]; exact hc
+      · split
+        · simp only [clock_subTurn]; exact hc
+        · split
+          · split
+            · rename_i t _ hlt
+              simp only [clock_subTurn]
+              refine Nat.le_trans (advanceTo_clock_le _ _ _ _) ?_
+              simp only [clock_subTurn]
+              omega
+            · refine Nat.le_trans (advanceTo_clock_le _ _ _ _) ?_
+              simp only [clock_subTurn]
+              omega
+          · refine Nat.le_trans (advanceTo_clock_le _ _ _ _) ?_
+            simp only [clock_subTurn]
+            omega
+
+/-! non-vacuity: a blocking Pull on an empty subscription waits exactly until the limit -/
+example : ((exSys.rpc (.pull exS1 1 false)).1.clock, (exSys.rpc (.pull exS1 1 false)).2) = (300000000, .msgs []) := by decide
 
 end Deltio
